@@ -471,7 +471,7 @@ def multi_case(kind, units):
     return {"kind": kind, "units": us}
 
 
-def _record(col, ds, info, case, nontrivial_key=None):
+def _record(col, ds, info, case, nontrivial_key=None, kind=""):
     col.case()
     if info.get("harness_error"):
         col.error(info["harness_error"])
@@ -479,7 +479,7 @@ def _record(col, ds, info, case, nontrivial_key=None):
         col.extra["observation: attribute value is a %s: %s" % (tname, name)] += 1
     out = info.get("outcome")
     if out:
-        col.label("outcome:%s" % out)
+        col.label("outcome:%s%s:%s" % (kind, case.get("lang", ""), out))
     if out == "timeout":
         col.discards["timeout"] += 1
     if nontrivial_key is not None and (out in ("rows", "crash", "rejected", "ok") or info.get("units_with_gir")):
@@ -528,11 +528,17 @@ def _settings(hypothesis, settings, HealthCheck, n):
                     suppress_health_check=list(HealthCheck), phases=[hypothesis.Phase.generate])
 
 
+def _uniform(data, st):
+    """(draw, strategies) that choose uniformly, driven by a random.Random which Hypothesis seeds."""
+    rnd = data.draw(st.randoms(use_true_random=True))
+    return G.rand_draw(rnd), G.RandSt
+
+
 def corpus_shard(arg):
     lang, part, nparts, tier = arg
     col = Collector()
     files = G.corpus()[lang]
-    timeout = 30 if tier == "quick" else 180
+    timeout = 30 if tier == "quick" else 900      # one corpus file needs a minute even on an idle core
     for i, (rel, data) in enumerate(files):
         if i % nparts != part:
             continue
@@ -542,9 +548,9 @@ def corpus_shard(arg):
         ds, info = check_single(data, lang, timeout=timeout)
         case = single_case(lang, data)
         case["corpus_file"] = rel
-        _record(col, ds, info, case)
+        _record(col, ds, info, case, kind="corpus:")
         col.label("corpus:%s" % lang)
-        if len(col.samples) < 1 and part == 0:
+        if len(col.samples) < 1 and part == 0 and lang == "java" and info["outcome"] == "rows":
             col.sample({"kind": "corpus", "lang": lang, "file": rel, "outcome": info["outcome"], "rows": info["rows"]})
     return col
 
@@ -560,11 +566,12 @@ def gen_shard(arg):
     @_settings(hypothesis, settings, HealthCheck, n)
     @hypothesis.given(st.data())
     def prop(data):
-        text, top_markers, labels = G.generate_program(lang, data.draw, st, avoid=avoid)
+        draw, rst = _uniform(data, st)
+        text, top_markers, labels = G.generate_program(lang, draw, rst, avoid=avoid)
         raw = text.encode("utf-8")
         ds, info = check_single(raw, lang, top_markers=top_markers, timeout=timeout)
         case = single_case(lang, raw, top_markers)
-        _record(col, ds, info, case, nontrivial_key=common.jhash([lang, text]))
+        _record(col, ds, info, case, nontrivial_key=common.jhash([lang, text]), kind="generated:")
         col.label("generated:%s" % lang)
         for l in labels:
             col.label("generated:%s" % l)
@@ -572,8 +579,8 @@ def gen_shard(arg):
             col.label("generated:source_order_compared")
         for a in avoid:
             col.stepovers[a] += 1
-        if len(col.samples) < 1:
-            col.sample({"kind": "generated", "lang": lang, "text": text[:600], "outcome": info["outcome"], "rows": info["rows"]})
+        if len(col.samples) < 1 and lang in ("php", "go") and col.evaluations >= 25 and 200 < len(text) < 900:
+            col.sample({"kind": "generated", "lang": lang, "text": text, "top_markers": top_markers, "outcome": info["outcome"], "rows": info["rows"]})
 
     prop()
     return col
@@ -585,14 +592,28 @@ def _bases(lang, n_generated, seed, avoid):
     return files
 
 
+def _strip_leading_line_comments(data):
+    lines = data.splitlines(keepends=True)
+    while lines and (lines[0].lstrip().startswith(b"//") or not lines[0].strip()):
+        lines.pop(0)
+    return b"".join(lines)
+
+
 def mut_shard(arg):
     lang, seed, n, tier = arg
-    hypothesis, settings, st, HealthCheck = _hyp()
+    hypothesis, settings, hst, HealthCheck = _hyp()
     col = Collector()
     avoid = active_stepovers()
     all_files = G.corpus()[lang]
     corpus_hashes = set(common.jhash([lang, d.decode("utf-8", "replace")]) for _, d in all_files)
     bases = [d for _, d in all_files if 0 < len(d) <= G.MAX_MUTATION_BASE_BYTES]
+    if lang == "c":
+        # c_parser.is_comment() looks at the TEXT of a node: a file whose first bytes are `//` is taken for one
+        # comment as a whole and yields no GIR (allowed by C03, noted in the report).  A third of the C corpus
+        # starts that way; mutants of those files would almost all be trivial, so their bases lose the leading
+        # comment lines (the unmodified files are still lowered by the corpus shard).
+        bases = [_strip_leading_line_comments(d) for d in bases]
+        bases = [d for d in bases if d.strip()]
     small = [d for d in bases if len(d) <= 1500]
     ops = G.QUICK_OPS if tier == "quick" else G.MUTATION_OPS
     max_ops = 2 if tier == "quick" else 5
@@ -600,10 +621,10 @@ def mut_shard(arg):
 
     @hypothesis.seed(seed)
     @_settings(hypothesis, settings, HealthCheck, n)
-    @hypothesis.given(st.data())
+    @hypothesis.given(hst.data())
     def prop(data):
-        draw = data.draw
-        which = draw(st.integers(0, 9))
+        draw, st = _uniform(data, hst)
+        which = draw(st.sampled_from(list(range(10))))
         if which < 3:
             text, _, _ = G.generate_program(lang, draw, st, avoid=avoid)
             cur = text.encode("utf-8")
@@ -614,31 +635,32 @@ def mut_shard(arg):
         else:
             cur = draw(st.sampled_from(bases))
             col.label("base:corpus")
-        k = draw(st.integers(1, max_ops))
+        k = draw(st.sampled_from(list(range(1, max_ops + 1))))
+        applied = []
         for _ in range(k):
             op = draw(st.sampled_from(ops))
+            applied.append(op)
             other = draw(st.sampled_from(small or bases)) if op == "splice" else None
             cur = G.mutate_once(cur, lang, draw, st, op, other)
             col.label("op:%s" % op)
         ds, info = check_single(cur, lang, timeout=timeout)
         case = single_case(lang, cur)
         key = common.jhash([lang, cur.decode("utf-8", "replace")])
-        _record(col, ds, info, case, nontrivial_key=None if key in corpus_hashes else key)
+        _record(col, ds, info, case, nontrivial_key=None if key in corpus_hashes else key, kind="mutant:")
         col.label("mutant:%s" % lang)
-        if len(col.samples) < 1 and info["outcome"] == "rows" and len(cur) < 400:
-            col.sample({"kind": "mutant", "lang": lang, "text": cur.decode("utf-8", "replace"), "outcome": info["outcome"], "rows": info["rows"]})
+        if len(col.samples) < 1 and lang in ("typescript", "c") and col.evaluations >= 25 and info["outcome"] == "rows" and 80 < len(cur) < 500:
+            col.sample({"kind": "mutant", "lang": lang, "ops": applied, "text": cur.decode("utf-8", "replace"), "outcome": info["outcome"], "rows": info["rows"]})
 
     prop()
     return col
 
 
 def _draw_units(draw, st, corp, avoid, light_ops):
-    k = draw(st.integers(2, 4))
+    k = draw(st.sampled_from([2, 3, 4]))
     units = []
-    used = set()
     for i in range(k):
         lang = draw(st.sampled_from(G.LANGS))
-        how = draw(st.integers(0, 9))
+        how = draw(st.sampled_from(list(range(10))))
         if how < 4:
             text, _, _ = G.generate_program(lang, draw, st, avoid=avoid)
             data = text.encode("utf-8")
@@ -647,7 +669,7 @@ def _draw_units(draw, st, corp, avoid, light_ops):
             data = draw(st.sampled_from(pool))
             if how >= 8:
                 data = G.mutate_once(data, lang, draw, st, draw(st.sampled_from(light_ops)), None)
-        if i == 1 and draw(st.integers(0, 9)) == 0:
+        if i == 1 and draw(st.sampled_from(list(range(10)))) == 0:
             data = b""                       # an empty file in the middle: no GIR for that unit
         name = "u%d%s" % (i, G.LANG_EXT[lang])
         if draw(st.booleans()):
@@ -669,7 +691,8 @@ def multi_shard(arg):
     @_settings(hypothesis, settings, HealthCheck, n)
     @hypothesis.given(st.data())
     def prop(data):
-        units = _draw_units(data.draw, st, corp, avoid, light)
+        draw, rst = _uniform(data, st)
+        units = _draw_units(draw, rst, corp, avoid, light)
         case = multi_case(kind, units)
         if kind == "threaded":
             ds, info = check_threaded(units, timeout=timeout)
@@ -688,8 +711,9 @@ def multi_shard(arg):
             col.discards["timeout"] += 1
         for s, w in ds:
             col.discrepancy(s, w, case)
-        if len(col.samples) < 1:
-            col.sample({"kind": kind, "units": [(l, nm, len(d)) for l, nm, d in units], "units_with_gir": info.get("units_with_gir")})
+        if len(col.samples) < 1 and col.evaluations >= 8 and info.get("units_with_gir", 0) >= 2 and sum(len(d) for _, _, d in units) < 1500:
+            col.sample({"kind": kind, "units": [{"lang": l, "name": nm, "text": d.decode("utf-8", "replace")} for l, nm, d in units],
+                        "units_with_gir": info.get("units_with_gir")})
 
     prop()
     return col
